@@ -67,13 +67,13 @@ package xtype
 
 
 //@ func Accessible
-//@   props C01 C03
+//@   props C01 C03 C13
 //@   pure
 //@   requires@C13 obj != nil
 //@   ensures result == (obj.Exported() || obj.Pkg() == nil || obj.Pkg().Path() == outputPackagePath)
 
 //@ func Type.Enum
-//@   props C08
+//@   props C08 C13
 //@   requires@C13 t != nil && cfg != nil
 //@   assigns t.enum
 //@   ensures result != nil
@@ -83,7 +83,7 @@ package xtype
 // C08: whether a named type qualifies as an enum depends on the CURRENT configuration: disabled or
 // excluded types never qualify
 //@ func loadEnum
-//@   props C08
+//@   props C08 C13
 //@   requires@C13 cfg != nil && t != nil
 //@   assigns nothing
 //@   ensures result != nil
@@ -112,31 +112,31 @@ package xtype
 //@   props C03
 //@   ensures result != nil && isFresh(result) && result.Code == code && !result.Variable && result.ParentPointer == nil
 //@ func JenID.Pointer
-//@   props C03
+//@   props C03 C13
 //@   requires@C13 j != nil && j.Code != nil
 //@   ensures result1 != nil && result1.Code != nil && isFresh(result1)
 //@ func JenID.Deref
-//@   props C03
+//@   props C03 C13
 //@   requires@C13 j != nil && j.Code != nil && source != nil && source.PointerInner != nil
 //@   ensures result != nil && result.Code != nil && result.ParentPointer == j
 //@ func Type.TypeAsJen
 //@   props C01
 //@   ensures result != nil
 //@ func Type.AsPointer
-//@   props C03
+//@   props C03 C13
 //@   requires@C13 t != nil
 //@   assigns nothing
 //@   ensures result != nil && isFresh(result) && result.Pointer && result.PointerInner != nil
 
 //@ func Type.inStruct
-//@   props C03
+//@   props C03 C13
 //@   requires@C13 t != nil && source != nil
 //@   assigns t.Func, t.FuncType
 //@   ensures result == t
 
 // ---- type rendering (C01): every helper returns a statement ----
 //@ func Type.AsPointerType
-//@   props C03
+//@   props C03 C13
 //@   requires@C13 t != nil
 //@   ensures result != nil
 //@ func toCode
@@ -168,7 +168,7 @@ package xtype
 //@   ensures result != nil
 
 //@ func SignatureOf
-//@   props C06
+//@   props C06 C13
 //@   pure
 //@   requires@C13 source != nil && target != nil
 //@   ensures result == Signature{Source: source.String, Target: target.String}
@@ -193,7 +193,7 @@ package xtype
 
 // ---- C05: exact-name lookup scans the fields and then (for named types) the methods ----
 //@ func Type.findAllFields
-//@   props C05 C03
+//@   props C05 C03 C13
 //@   requires@C13 t.Struct && t.StructType != nil && (t.Named ==> t.NamedType != nil)
 //@   ensures result0 == nil ==> (forall y int :: 0 <= y && y < t.StructType.NumFields() ==> t.StructType.Field(y).Name() != name)
 //@   ensures result0 == nil && t.Named ==> (forall y int :: 0 <= y && y < t.NamedType.NumMethods() ==> t.NamedType.Method(y).Name() != name)
@@ -203,3 +203,6 @@ package xtype
 //@   loop 1 invariant 0 <= y && (forall z int :: 0 <= z && z < y ==> t.StructType.Field(z).Name() != name)
 //@   loop 2 invariant 0 <= y && (forall z int :: 0 <= z && z < y ==> t.NamedType.Method(z).Name() != name)
 //@   loop 2 invariant forall z int :: 0 <= z && z < t.StructType.NumFields() ==> t.StructType.Field(z).Name() != name
+
+//@ func UsageFromMap
+//@   props C13
